@@ -71,6 +71,9 @@ def _templates(ctx, rng):
         lambda: ['tuple', [['Val', simi()], ['Iter', None, None, [['chunked', 2]], ['first']]]],
         lambda: ['tuple', [['Val', simi()], ['Fold', ['T', 'T', []], P('const') + [0], ['fn', 'add']]]],
         lambda: ['tuple', [['Val', siml()], ['Sum']]],
+        # reductions over a SUB-SPEC: what the sub-spec raises (also glom's own errors) is not the fold's
+        lambda: ['tuple', [['Val', siml()], [rng.choice(['Sum', 'Flatten', 'Merge']), P()]]],
+        lambda: ['tuple', [['Val', siml()], ['Fold', P(), ['fn', 'int'], ['fn', 'add']]]],
         lambda: ['tuple', [['Val', siml()], ['Group', ['dict', [[{'t': 'spec', 'v': P()}, ['list', [['T', 'T', []]]]]]]]]],
         lambda: ['tuple', [['Val', simd()], ['Assign', ['str', rng.choice(['a.b', 'a.z', 'c.0', 'q.r'])], 7,
                                              rng.choice([None, ['probe', ctx.new_pid(), 'fn', 'dict']])]]],
@@ -143,7 +146,7 @@ def gen_item(seed, tier):
     special = ['UGlomKwOnly', 'UGlomArity', 'UserRewrite', 'UserKwOnly', 'UserArity', 'UGlomErr',
                'UGlomErrInit', 'UGlomMixed', 'UGlomRewrite', 'KeyboardInterrupt', 'UserBase', 'UserKeyErr',
                'UGlomLookup', 'OverflowError', 'ArithmeticError', 'ZeroDivisionError', 'StopIteration',
-               'StopIteration']
+               'StopIteration', 'UnregisteredTarget']
     classes = rng.sample(pool, 2) + [rng.choice(special)]
     if rng.random() < 0.12:
         classes += ['UserErr', 'UserErrTwin']      # two unrelated classes with the same __name__
